@@ -145,8 +145,12 @@ var confirmed sync.Map
 
 func single(r *core.Run) bool {
 	rd := getRef()
-	for _, f := range refErr {
-		r.Violation(f.sig, f.what, Case{Part: "reference"})
+	for i, f := range refErr {
+		c := Case{Part: "reference", Detail: f.what}
+		if refCases[i].Entry != "" {
+			c.History = []Call{refCases[i]}
+		}
+		r.Violation(f.sig, f.what, c)
 	}
 	type job struct{ shape, entry string }
 	var jobs []job
@@ -165,7 +169,7 @@ func single(r *core.Run) bool {
 			var thrown *outcome // outcome of throw@k, the reference of the other catchable routes at the same k
 			reached := -1       // smallest limit under which the call completed
 			for fi, f := range fs {
-				if r.Expired() {
+				if expired(r) {
 					return
 				}
 				if f.Kind == "limit" && reached >= 0 && f.K != maxLimit && r.Quick() {
